@@ -176,6 +176,30 @@ def describe(libs):
     return {"outcome": "ok", "library": lib, "lookups": lookups}
 
 
+def cli_run(d, libset, extra):
+    """One run of the command-line tool on a small model; returns [exit code, first line of stderr]."""
+    from click.testing import CliRunner
+    from mpilot.cli.mpilot import main
+    path = os.path.join(d, "cli_model.mpt")
+    if not os.path.exists(path):
+        with open(os.path.join(d, "cli_t.csv"), "w") as f:
+            f.write("x\n1\n2\n")
+        with open(path, "w") as f:
+            f.write('A = EEMSRead(InFileName = "cli_t.csv", InFieldName = x)\nS = Sum(InFieldNames = [A])\n')
+    args = [libset, path]
+    for lib in extra:
+        args += ["-l", lib]
+    try:
+        res = CliRunner(mix_stderr=False).invoke(main, args)
+    except TypeError:
+        res = CliRunner().invoke(main, args)
+    try:
+        err = res.stderr
+    except Exception:
+        err = res.output
+    return [res.exit_code, (err.strip().splitlines() or [""])[0][:120], type(res.exception).__name__ if res.exception is not None and not isinstance(res.exception, SystemExit) else None]
+
+
 def main():
     spec = json.loads(sys.argv[1])
     d = spec["dir"]
@@ -196,6 +220,8 @@ def main():
                 # a program whose working directory happens to hold a module named like the requested library
                 from mpilot.program import Program
                 Program(libraries=tuple(step[1]), working_dir=os.path.join(d, "wd"))
+            elif kind == "cli":
+                cli_run(d, step[1], step[2])
             elif kind == "import":
                 __import__(step[1])
             elif kind == "define":
@@ -211,6 +237,8 @@ def main():
         except Exception as e:
             steps_seen.append([kind, type(e).__name__])
     out = describe(spec["probe"])
+    # the command-line tool afterwards, with no extra libraries: what it does depends on its own arguments only
+    out["cli"] = {"eems-csv": cli_run(d, "eems-csv", []), "eems-netcdf-with-other": cli_run(d, "eems-csv", ["other"])}
     out["steps"] = steps_seen
     print("C19RESULT " + json.dumps(out, sort_keys=True))
 
